@@ -33,8 +33,9 @@ pub open spec fn sorted_stable_by<T, K: Ord>(old: Seq<T>, new: Seq<T>, ks: Seq<K
     &&& new.len() == old.len() && ks.len() == old.len() && p.len() == old.len()
     &&& forall|i: int| 0 <= i < p.len() ==> 0 <= #[trigger] p[i] < old.len() && new[i] == old[p[i]]
     &&& forall|i: int, j: int| #![trigger p[i], p[j]] 0 <= i < j < p.len() ==> p[i] != p[j]
-    &&& forall|i: int, j: int| #![trigger ks[i], ks[j]] 0 <= i < j < ks.len() ==> !(ks[i].cmp_spec(&ks[j]) is Greater)
-    &&& forall|i: int, j: int| #![trigger ks[i], ks[j]] 0 <= i < j < ks.len() && ks[i].cmp_spec(&ks[j]) is Equal ==> p[i] < p[j]
+    // (`cmp_spec` is `Ord::cmp` only for key types that say so)
+    &&& K::obeys_cmp_spec() ==> forall|i: int, j: int| #![trigger ks[i], ks[j]] 0 <= i < j < ks.len() ==> !(ks[i].cmp_spec(&ks[j]) is Greater)
+    &&& K::obeys_cmp_spec() ==> forall|i: int, j: int| #![trigger ks[i], ks[j]] 0 <= i < j < ks.len() && ks[i].cmp_spec(&ks[j]) is Equal ==> p[i] < p[j]
 }
 /// std: "Sorts the slice in ascending order with a key extraction function, preserving initial order of equal
 /// elements.  This sort is stable (i.e., does not reorder equal elements) and O(m * n * log(n)) worst-case, where the
@@ -353,6 +354,31 @@ pub proof fn lemma_node_locations(net: &Network, n: NodeIdx)
     assert(net.nodes@.contains_key(n));
 }
 
+// ---- sums: a count is at most the total (text copied from slices/admission.vs) ------------------------------------------
+pub proof fn lemma_isum_bounds_lo(s: Seq<int>)
+    requires forall|i: int| 0 <= i < s.len() ==> 0 <= #[trigger] s[i],
+    ensures 0 <= isum(s),
+    decreases s.len(),
+{
+    if s.len() > 0 {
+        let t = s.drop_last();
+        assert forall|i: int| 0 <= i < t.len() implies 0 <= #[trigger] t[i] by { assert(t[i] == s[i]); }
+        lemma_isum_bounds_lo(t);
+    }
+}
+pub proof fn lemma_isum_nonneg_le(s: Seq<int>, k: int)
+    requires forall|i: int| 0 <= i < s.len() ==> 0 <= #[trigger] s[i], 0 <= k < s.len(),
+    ensures 0 <= s[k] <= isum(s),
+    decreases s.len(),
+{
+    let t = s.drop_last();
+    assert forall|i: int| 0 <= i < t.len() implies 0 <= #[trigger] t[i] by { assert(t[i] == s[i]); }
+    lemma_isum_bounds_lo(t);
+    if k < t.len() {
+        lemma_isum_nonneg_le(t, k);
+        assert(t[k] == s[k]);
+    }
+}
 // ---- sums: one more vehicle of one type ---------------------------------------------------------------------------
 /// if b exceeds a by at most 1 at no more than one position and nowhere else, the sum grows by at most 1
 pub proof fn lemma_isum_one_more(a: Seq<int>, b: Seq<int>, k: int)
